@@ -91,8 +91,11 @@ MainIdxFor(b, old) == [h \in 0..MaxHeight |-> IF h <= Height(b) THEN Anc(b, h) E
 (* Admission rules for one verification [v, s, t, ok] against node state n *)
 SigOrders(H, c) == {x.v : x \in {y \in H : y.t = c}}
 
-SameHeightConflict(n, v, t) ==   \* another stored checkpoint of t's height already holds a slot of v
-  \E c \in n.stored : IsCp(c) /\ c # t /\ Height(c) = Height(t) /\ v \in SigOrders(n.hdr, c)
+(* another stored checkpoint of t's height (inside or outside the tree) already holds an admitted verification *)
+(* of v. The node consults the stored headers; since only admitted signatures are stored in a header, these   *)
+(* are exactly the admitted links (before that repair the raw slots, garbage included, were consulted).       *)
+SameHeightConflict(n, v, t) ==
+  \E c \in n.stored : IsCp(c) /\ c # t /\ Height(c) = Height(t) /\ \E l \in n.links : l.t = c /\ l.v = v
 
 SpanConflict(n, v, s, t) ==      \* a vote of v in the tree surrounds, or lies inside, s -> t
   \E l \in n.links : /\ l.v = v /\ InTree(n.root, l.t) /\ Height(l.t) # Height(t)
@@ -164,8 +167,7 @@ SaveBlock(n, b) ==
                    ELSE {x \in car : ~(x.s = mys /\ x.v = Me)} \cup {[s |-> mys, v |-> Me, ok |-> TRUE]}
               srcs0 == SrcSeq(blk[b].car, <<>>)
               srcs == IF mys = -1 \/ (\E k \in 1..Len(srcs0) : srcs0[k] = mys) THEN srcs0 ELSE Append(srcs0, mys)
-              n2 == [n1 EXCEPT !.hdr = @ \cup {[t |-> b, s |-> x.s, v |-> x.v, ok |-> x.ok] : x \in H},
-                               !.posted = IF mys = -1 THEN @ ELSE Append(@, [v |-> Me, s |-> mys, t |-> b])]
+              n2 == [n1 EXCEPT !.posted = IF mys = -1 THEN @ ELSE Append(@, [v |-> Me, s |-> mys, t |-> b])]
           IN [n |-> ApplyHeader(n2, b, H, srcs), ok |-> TRUE]
 
 (* Chain.saveSubBlock: connect the orphans waiting on b, depth first, in arrival order *)
@@ -305,8 +307,7 @@ Deliver(b) ==
 (* Casper.authVerification of an admitted message, shared by DeliverVote and EpochTick *)
 Auth(n, v, s, t, ok) ==
   LET n1 == AddVer(n, v, s, t) IN
-  [n1 EXCEPT !.posted = Append(@, [v |-> v, s |-> s, t |-> t]),
-             !.hdr = @ \cup {[t |-> t, s |-> s, v |-> v, ok |-> ok]}]
+  [n1 EXCEPT !.posted = Append(@, [v |-> v, s |-> s, t |-> t])]
 
 (* Chain.ProcessBlockVerification(msg) *)
 DeliverVote(i) ==
